@@ -273,9 +273,9 @@ func c04Histories(thorough bool) [][]int {
 
 func init() {
 	fw.Register(&fw.Prop{
-		ID:    "C04",
-		Level: "model_checking",
-		Rule: "storage states = distinct VerifDump keys reached by insert histories (all pairs, plus 16 / all triples, over the C03 alphabet) × placements {memory, disk, split, split+restart}, schemas {t1, tp}; on each state the whole query alphabet (48 t1 queries / 12 tp queries: select lists, derived and PERCENTILE-wrapping fields, absolute/relative/unaligned ASOF/UNTIL incl. ranges ending before the newest period, GROUP BY subsets, period multiples, STRIDE, SHIFT, CROSSHIFT, CROSSTAB(T), HAVING, WHERE, IN- and FROM-subqueries, ORDER/LIMIT) × includeMemStore {true,false}; oracle: decoded file+memstore bytes and 2 probe queries (with and without memstore) identical after each query, probes identical again after the next flush; thorough adds ordered pairs (Q1;Q2) on fresh instances; non-trivial = query that returned rows",
+		ID:          "C04",
+		Level:       "model_checking",
+		Rule:        "storage states = distinct VerifDump keys reached by insert histories (all pairs, plus 16 / all triples, over the C03 alphabet) × placements {memory, disk, split, split+restart}, schemas {t1, tp}; on each state the whole query alphabet (48 t1 queries / 12 tp queries: select lists, derived and PERCENTILE-wrapping fields, absolute/relative/unaligned ASOF/UNTIL incl. ranges ending before the newest period, GROUP BY subsets, period multiples, STRIDE, SHIFT, CROSSHIFT, CROSSTAB(T), HAVING, WHERE, IN- and FROM-subqueries, ORDER/LIMIT) × includeMemStore {true,false}; oracle: decoded file+memstore bytes and 2 probe queries (with and without memstore) identical after each query, probes identical again after the next flush; thorough adds ordered pairs (Q1;Q2) on fresh instances; non-trivial = query that returned rows",
 		Assumptions: []string{"walking the alphabet on one instance is sound because the byte-level state is verified unchanged after every query"},
 		Shards:      func(tier string) int { return 16 },
 		Budget: func(tier string) time.Duration {
